@@ -2144,6 +2144,9 @@ EGLPNUM_TYPENAME_QSLIB_INTERFACE QSbasis *EGLPNUM_TYPENAME_QSget_basis (
 	int rval = 0;
 	QSbasis *B = 0;
 
+	rval = check_qsdata_pointer (p);
+	CHECKRVALG (rval, CLEANUP);
+
 	if (p->basis == 0)
 	{
 		QSlog("no basis available in EGLPNUM_TYPENAME_QSget_basis");
@@ -2435,9 +2438,9 @@ int EGLPNUM_TYPENAME_QSgrab_cache (
 	int status)
 {
 	int rval = 0;
-	EGLPNUM_TYPENAME_ILLlp_cache *C = p->cache;
-	int nstruct = p->qslp->nstruct;
-	int nrows = p->qslp->nrows;
+	EGLPNUM_TYPENAME_ILLlp_cache *C = 0;
+	int nstruct;
+	int nrows;
 	#if 0
 	/* we may need to fix basic status for fixed variables */
 	register int i;
@@ -2448,6 +2451,12 @@ int EGLPNUM_TYPENAME_QSgrab_cache (
 	int *const vstat = p->lp->vstat;
 	/* end extra variables needed */
 	#endif
+
+	rval = check_qsdata_pointer (p);
+	CHECKRVALG (rval, CLEANUP);
+	C = p->cache;
+	nstruct = p->qslp->nstruct;
+	nrows = p->qslp->nrows;
 
 	if (C == 0)
 	{
@@ -4134,6 +4143,9 @@ EGLPNUM_TYPENAME_QSLIB_INTERFACE int EGLPNUM_TYPENAME_QSreport_prob (
 	EGLPNUM_TYPENAME_qserror_collector * c)
 {
 	int isMps, rval = 0;
+
+	rval = check_qsdata_pointer (p);
+	CHECKRVALG (rval, CLEANUP);
 
 	rval = formatIsMps (filetype, &isMps);
 	CHECKRVALG (rval, CLEANUP);
